@@ -1,7 +1,10 @@
 CONSTANTS
   SectorSize <- TrS
   TableSize = 16
+  HetSize = 8
+  UseHetBet = TRUE
   FlagFix <- TrFlagFix
+  BetFix <- TrBetFix
   LibFileKey <- TrKey
 INIT Init
 NEXT Next
